@@ -12,7 +12,7 @@ package builtins
 
 // Get: lookup in the package-level map literal {"join": join, "exec": execute}
 //@ func Get
-//@ trusted reads the package-level map variable initialised by a map literal
+//@ trusted reads the table built by the package initialiser (builtins.init is verified to build exactly {join, exec}; the structural check globalstore shows nothing else stores to or updates it)
 //@ ensures result1 ==> result0 != nil && result0 == builtinId(name) && (name == "join" || name == "exec")
 //@ ensures name == "join" || name == "exec" ==> result1
 
@@ -26,3 +26,11 @@ package builtins
 //@ ensures [C13,exec-ran-the-argument] result1 == nil ==> execRes.Cmd == command[0]
 //@ ensures [C13,exec-succeeded] result1 == nil ==> execRes.Status == 0
 //@ ensures [C13,exec-is-trimmed-stdout] result1 == nil ==> result0 == trimSpace(execRes.Stdout)
+
+// the package initialiser builds the table Get reads: exactly join and exec (the structural check
+// globalstore shows nothing else stores to the variable)
+//@ func init
+//@ props C13
+//@ modifies global(builtins.builtins), mapOf(builtins)
+//@ ensures [C13,builtin-table] dom(builtins, "join") && dom(builtins, "exec") && builtins["join"] == join && builtins["exec"] == execute
+//@ ensures [C13,builtin-table-has-nothing-else] forall k string :: {dom(builtins, k)} dom(builtins, k) ==> k == "join" || k == "exec"
